@@ -1148,21 +1148,25 @@ namespace occa {
         return;
       }
 
-      // Make sure to test #elif expression is valid
+      // The #elif expression is not evaluated once a group
+      //   was taken (or if the whole #if is being ignored)
+      if (status & ppStatus::finishedIf) {
+        skipToNewline();
+        return;
+      }
+      if (status & ppStatus::reading) {
+        swapReadingStatus();
+        status |= ppStatus::finishedIf;
+        skipToNewline();
+        return;
+      }
+
       bool isTrue;
       if (!lineIsTrue(directive, isTrue)) {
         return;
       }
 
-      // If we already finished, keep old state
-      if (status & ppStatus::finishedIf) {
-        return;
-      }
-
-      if (status & ppStatus::reading) {
-        swapReadingStatus();
-        status |= ppStatus::finishedIf;
-      } else if (isTrue) {
+      if (isTrue) {
         status = (ppStatus::foundIf |
                   ppStatus::reading);
       }
